@@ -411,7 +411,8 @@ func (t *TriDense) Copy(a Matrix) (r, c int) {
 			}
 		} else {
 			for i := 0; i < r; i++ {
-				copy(t.mat.Data[i*t.mat.Stride:i*t.mat.Stride+i+1], amat.Data[i*amat.Stride:i*amat.Stride+i+1])
+				l := min(i+1, c)
+				copy(t.mat.Data[i*t.mat.Stride:i*t.mat.Stride+l], amat.Data[i*amat.Stride:i*amat.Stride+l])
 			}
 		}
 	case RawTriangular:
@@ -462,7 +463,7 @@ func (t *TriDense) Copy(a Matrix) (r, c int) {
 					t.set(i, j, a.At(i, j))
 				}
 			} else {
-				for j := 0; j <= i; j++ {
+				for j := 0; j <= i && j < c; j++ {
 					t.set(i, j, a.At(i, j))
 				}
 			}
